@@ -224,6 +224,10 @@ type Options struct {
 	// violation with this signature prefix (C03); otherwise it is an internal error.
 	HangSig   string
 	HangAfter time.Duration
+	// HangRecheck re-executes the suspected input alone (in a fresh goroutine); the case is
+	// reported only if this does not return within 120 s either, so a starved worker is never
+	// mistaken for a non-terminating call.
+	HangRecheck func(input string)
 }
 
 // Budget is a process-wide stop flag set when the internal deadline is hit.
@@ -238,7 +242,7 @@ func Explore(opt Options, body func(*Ctx)) *Stats {
 		opt.SplitLen = 2
 	}
 	if opt.HangAfter == 0 {
-		opt.HangAfter = 20 * time.Second
+		opt.HangAfter = 60 * time.Second
 	}
 	start := time.Now()
 	items := make(chan []int, 4096)
@@ -276,7 +280,21 @@ func Explore(opt Options, body func(*Ctx)) *Stats {
 					}
 					cur := w.cur.Load()
 					if cur != nil && now.Sub(since[i]) > opt.HangAfter {
-						hang(opt, *cur, fmt.Sprintf("no return after %s", opt.HangAfter))
+						if opt.HangRecheck != nil {
+							doneCh := make(chan struct{})
+							in := *cur
+							go func() {
+								defer func() { recover(); close(doneCh) }()
+								opt.HangRecheck(in)
+							}()
+							select {
+							case <-doneCh:
+								since[i] = time.Now() // the input terminates on its own: the worker is merely slow
+								continue
+							case <-time.After(120 * time.Second):
+							}
+						}
+						hang(opt, *cur, fmt.Sprintf("no return after %s (and not within 120 s when re-run alone)", opt.HangAfter))
 					}
 				}
 				runtime.ReadMemStats(&ms)
